@@ -471,6 +471,34 @@ def cache_replay(ctx, check_order=False):
         ctx.ob(R, key, ok, fn_.node,
                'the walk does not record (filter, included paths, not_now '
                'paths) in the find cache')
+    # the saved cache is all or nothing: find_check_cache replays only the
+    # filters it finds in the file and treats them as the complete list of
+    # searches, so an entry that cannot be serialised must take the whole
+    # file down (only FindCacheFile.save may catch SerializationError, and
+    # that path removes the file)
+    sv = F.fn(FIND + 'FindCacheFile.save')
+    catchers = []
+    for m_ in repo.modules.values():
+        if not m_.name.startswith('bfg9000.builtins'):
+            continue
+        for n_ in ast.walk(m_.tree):
+            if isinstance(n_, ast.ExceptHandler) and n_.type is not None and \
+                    'SerializationError' in unparse(n_.type):
+                catchers.append((n_, repo.enclosing_func(n_)))
+    ok = bool(catchers) and all(
+        g is not None and F.only_called_from(g, {sv.fq})
+        for n_, g in catchers)
+    ctx.ob(R, 'FindCacheFile.save|only-catcher-of-SerializationError', ok,
+           sv.node, 'an unserialisable search is skipped somewhere else '
+           'than in FindCacheFile.save ({}): a partial cache is saved and '
+           'the lazy check no longer sees every search'.format(
+               ', '.join(sorted({g.fq if g else '?' for n_, g in catchers
+                                 if g is None or g.fq != sv.fq}))))
+    rm = F.effects(sv, lambda e: e.name in ('remove', 'unlink'), depth=1)
+    ok = bool(rm) and not F.must(sv, lambda e: e.name == 'dump', depth=1)
+    ctx.ob(R, 'FindCacheFile.save|removes-file-when-not-saved', bool(rm),
+           sv.node, 'a cache that cannot be saved does not remove the old '
+           'cache file')
     # not_now entries become plain files / directories
     ok = bool(extra) and all(
         not has(e.heads(), "['auto_file']") and not any(
